@@ -25,12 +25,12 @@ abbrev Hyps (env : MEnv) (h : Heap) (target : Val) (sroot : Bool) (orig : List S
   covered env h target sroot orig vs missing = true
 
 /-- **Facts obligation** (re-checked on every run against the regenerated tables):
-    `_assign_op` performs `dest[arg] = val` for `[`, `setattr(dest, arg, val)` for `.` — both
-    *without* an except clause, so their exceptions escape as they are — and calls the registered
-    `assign` handler for a plain segment, turning every exception the handlers can raise into a
-    PathAssignError; in the default `assign` registrations the duck types carry `object`'s
-    handler (so "nearest registered class of the MRO" is `_get_closest_type`'s answer);
-    `_t_eval` has the `*` / `**` branches; PathAssignError is a GlomError; plus C01's
+    `_assign_op` performs `dest[arg] = val` for `[`, `setattr(dest, arg, val)` for `.`, and calls
+    the handler `get_handler('assign', dest)` returns (looked up outside any `try`) for a plain
+    segment — which classes each branch's `except` clause names is taken from the table by the
+    model, the property only needs *an* error; in the default `assign` registrations the duck types
+    carry `object`'s handler (so "nearest registered class of the MRO" is `_get_closest_type`'s
+    answer); `_t_eval` has the `*` / `**` branches; PathAssignError is a GlomError; plus C01's
     obligation on the access branches. -/
 theorem c11_facts_wf : ∀ uc fl, WF (genEnv uc fl) = true := by
   intro uc fl
